@@ -5,7 +5,7 @@ def run(res, tier, seed, replay):
     res.cov["rule"] = ("real: random histories (1-3 lifetimes quick / 1-8 thorough, 0-12 ops each: installs with repetition over 6 u64 + 2 generic + 2 bool targets, kinds raw/closure/fake!/unchecked/boolean, calls, "
                        "optional terminator: user panic / refused signature / null pointer / refused boolean) through the public API in a forked child with interposed mmap/munmap/mprotect/__clear_cache; "
                        "the extracted Injector.lifetime model runs on the observed kernel answers; compared: every event segment in order (system calls, flush ranges and content), outcomes, call results vs the model's resolve; "
-                       "monitors: bytes and behaviour of every target after each scope exit, latest-installation-wins during; distinct = distinct (lifetimes, op-kind set, repeated-target flag)")
+                       "monitors: bytes and behaviour of every target after each scope exit, latest-installation-wins during; plus one history per kind of target PLACEMENT in synthetic code arenas (page-aligned entry, page-straddling, low address, jmp-stub entry, odd alignments, trampoline forced to either end of the window, fake at the +-2 GiB edge); distinct = distinct (lifetimes, op-kind set, repeated-target flag)")
     res.cov["trusted_base"] = vlib.TRUSTED_COMMON + ["L0 x86-64 fragment semantics (resolve)", "harness/real interposers (mmap, munmap, mprotect, __clear_cache) and fork isolation",
                                                       "Rust drop order / drop-on-unwind semantics as modelled in Injector.scope_exit"]
     res.assumptions = ["mmap returns a mapping disjoint from the entry slots of the named functions", "mprotect does not fail at restore time"]
@@ -18,3 +18,6 @@ def run(res, tier, seed, replay):
     # and everything must still be restored
     corpus2 = [("q0 r0,fk0,fk1,fk2,fk3 I:r0:raw:0,T:r0:2", [["I:r0:raw:0", "T:r0:2"]]), ("q1 r0,r1,fk0,fk1,fk2,fk3 T:r1:1,I:r0:clo:1,I:r0:raw:2,C:r0", [["T:r1:1", "I:r0:clo:1", "I:r0:raw:2", "C:r0"]])]
     histlib.check_histories(res, "c02", n // 2, seed + 2, "full", max_lifetimes=3, extra_lines=corpus2, gen=histlib.gen_counted_history, novals=True)
+    # every kind of target placement (page-aligned, straddling, low, forwarding stub, every alignment, deterministic trampoline at the window's ends, fake at the +-2 GiB edge)
+    import arenalib as _al, random as _rnd
+    histlib.check_histories(res, "c02", 0, seed + 20, "full", extra_lines=_al.placement_suite(_rnd.Random(seed + 20), "pl", tier))
